@@ -212,6 +212,31 @@ class Impl:
             x = x / float(2 ** (n * m))
             y = ev.GetImage(x)
             return _fmt_ints([round(v * 2 ** (m + 1)) for v in y])
+        # ---------------------------------------------------------------- evolvent object (C17)
+        if c == "eo.new":
+            n, m = int(t[1]), int(t[2])
+            fs = [h2f(v) for v in t[3:]]
+            lo = np.array(fs[:n], dtype=np.double); hi = np.array(fs[n:], dtype=np.double)
+            from iOpt.evolvent.evolvent import Evolvent
+            self.eo = Evolvent(lo, hi, n, m)
+            self.eo_vis = [lo, hi]
+            return "ok"
+        if c == "eo.arr":
+            self.eo_vis.append(np.array([h2f(v) for v in t[1:]], dtype=np.double))
+            return str(len(self.eo_vis) - 1)
+        if c == "eo.image":
+            y = self.eo.GetImage(h2f(t[1]))
+            self.eo_vis.append(y)
+            return f"{len(self.eo_vis) - 1}: {fs2h(y)}"
+        if c == "eo.inverse":
+            return f2h(self.eo.GetInverseImage(self.eo_vis[int(t[1])]))
+        if c == "eo.preimages":
+            return f2h(self.eo.GetPreimages(self.eo_vis[int(t[1])]))
+        if c == "eo.setbounds":
+            self.eo.SetBounds(self.eo_vis[int(t[1])], self.eo_vis[int(t[2])])
+            return "ok"
+        if c == "eo.visible":
+            return " | ".join(fs2h(a) for a in self.eo_vis)
         # ---------------------------------------------------------------- search data
         if c == "sd.new":
             from iOpt.method.search_data import SearchData, SearchDataDualQueue
